@@ -602,6 +602,44 @@ func tmplHelpers(status *protocol.ConsumerGroupStatus, extras map[string]string,
 	return a + "|" + strings.Join(cs, ",")
 }
 
+// tmplFormatTimestamp runs the `formattimestamp` helper (through a template) on millisecond timestamps taken from the
+// case and a few layouts, and compares each rendering with the documented meaning — the instant <ts> milliseconds after
+// the epoch, in local time, in the given layout (time.Unix(0, ts*1e6).Format(layout)).  A TEST of the implementation
+// against that oracle, made in the harness: the model only says "same".
+func tmplFormatTimestamp(d tData, extras map[string]string, status *protocol.ConsumerGroupStatus, start time.Time) string {
+	stamps := []int64{0, d.start / 1000000, 1500000000123, -1, 86399999}
+	if !d.maxlag.nilp && !d.maxlag.end.nilp {
+		stamps = append(stamps, d.maxlag.end.ts)
+	}
+	layouts := []string{"2006-01-02 15:04:05", "15:04:05.000", time.RFC3339Nano, "Jan _2 06 MST"}
+	for i, ts := range stamps {
+		if ts > 9000000000000 || ts < -9000000000000 {
+			continue // ts*1e6 must fit an int64 (the helper multiplies without a check; such stamps are not ms timestamps)
+		}
+		layout := layouts[i%len(layouts)]
+		t, err := tmplParseSource(fmt.Sprintf("{{formattimestamp %d %q}}", ts, layout))
+		if err != nil {
+			return "parse-error"
+		}
+		var out *bytes.Buffer
+		func() {
+			defer func() {
+				if rec := recover(); rec != nil {
+					err = fmt.Errorf("panic: %v", rec)
+				}
+			}()
+			out, err = verifhook.ExecuteTemplate(t, extras, status, d.id, start)
+		}()
+		if err != nil {
+			return "err"
+		}
+		if out.String() != time.Unix(0, ts*int64(time.Millisecond)).Format(layout) {
+			return "differs"
+		}
+	}
+	return "same"
+}
+
 // ---------------------------------------------------------------------------------------------
 // run
 
@@ -675,7 +713,7 @@ func runTmpl(r *runner) {
 			}()
 			out, err = verifhook.ExecuteTemplate(t, extras, status, d.id, start)
 		}()
-		hlp := tmplHelpers(status, extras, d.id, start)
+		hlp := tmplHelpers(status, extras, d.id, start) + " fts=" + tmplFormatTimestamp(d, extras, status, start)
 		if err != nil {
 			r.reply("r=err gen=%s hlp=%s", gen, hlp)
 			continue
